@@ -457,9 +457,9 @@ func emitNet(c *hxlib.Ctx, idx int, res *netResult, forCanary **netw) {
 		ds = append(ds, fmt.Sprintf("%s x%d", k, v))
 	}
 	sort.Strings(ds)
-	c.Note("net %d %s seed=%d: wall=%.1fs events=%d packets=%d (harness-made %d, duplicates %d, held %d) crashes=%d (cut inside an event %d, torn image %d) finalizes=%d max-round=%d locks=%d relocks=%d unlocks=%d byz-votes-delivered=%d node-traces=%d discarded=%v aborted=%q oracle=%q",
-		idx, cfg.Name, cfg.Seed, res.wall.Seconds(), nw.nEvents, len(nw.pool), nw.nByzPk, nw.nDup, nw.nHeld, nw.nCrashes, nw.nFused, nw.nTorn, finals, nw.maxRound, nw.nLock, nw.nRelock, nw.nUnlock, byzDelivered, usableNodes, ds, nw.aborted, oracle)
-	if oracle != "" || nw.aborted != "" || os.Getenv("C01_NOTES") != "" {
+	c.Note("net %d %s seed=%d: wall=%.1fs events=%d packets=%d (harness-made %d, duplicates %d, held %d) crashes=%d (cut inside an event %d, torn image %d) finalizes=%d script-done=%v max-round=%d locks=%d relocks=%d unlocks=%d byz-votes-delivered=%d node-traces=%d discarded=%v aborted=%q oracle=%q",
+		idx, cfg.Name, cfg.Seed, res.wall.Seconds(), nw.nEvents, len(nw.pool), nw.nByzPk, nw.nDup, nw.nHeld, nw.nCrashes, nw.nFused, nw.nTorn, finals, nw.scriptOK || !strings.HasPrefix(cfg.Style, "directed:"), nw.maxRound, nw.nLock, nw.nRelock, nw.nUnlock, byzDelivered, usableNodes, ds, nw.aborted, oracle)
+	if oracle != "" || nw.aborted != "" || os.Getenv("C01_NOTES") != "" || (strings.HasPrefix(cfg.Style, "directed:") && !nw.scriptOK) {
 		for _, n := range nw.notes {
 			c.Note("   net %d: %s", idx, n)
 		}
@@ -476,9 +476,36 @@ func gen(c *hxlib.Ctx) {
 	if v := os.Getenv("C01_PAR"); v != "" {
 		fmt.Sscanf(v, "%d", &par)
 	}
+	// the directed scenarios first, on their own (they depend on the step timers:
+	// a script that could not steer its schedule, e.g. because the machine is
+	// overloaded, is run again, at most three times)
 	var wg sync.WaitGroup
+	for i := range cfgs {
+		if !strings.HasPrefix(cfgs[i].Style, "directed:") {
+			continue
+		}
+		wg.Add(1)
+		go func(i int) {
+			defer wg.Done()
+			for try := 0; try < 3; try++ {
+				r := runNet(cfgs[i])
+				if res[i] != nil {
+					res[i].finish()
+				}
+				res[i] = r
+				if r.nw == nil || r.nw.scriptOK || len(r.nw.oracle) > 0 {
+					break
+				}
+				r.nw.note("directed scenario did not reach its end (attempt %d)", try+1)
+			}
+		}(i)
+	}
+	wg.Wait()
 	sem := make(chan struct{}, par)
 	for i := range cfgs {
+		if strings.HasPrefix(cfgs[i].Style, "directed:") {
+			continue
+		}
 		wg.Add(1)
 		sem <- struct{}{}
 		go func(i int) {
